@@ -757,7 +757,7 @@ func (fc *followerController) handleSnapshot(stream proto.OxiaLogReplication_Sen
 	fc.db = newDb
 	fc.commitOffset.Store(commitOffset)
 	fc.lastAppendedOffset = commitOffset
-	verifEmit(fc, "FSnapshot", "commit", commitOffset, "term", fc.term)
+	verifEmit(fc, "FSnapshot", "commit", commitOffset, "term", fc.term, "sterm", verifChunkTerm(firstChunk))
 	fc.closeStreamNoMutex(nil)
 
 	fc.log.Info(
